@@ -77,12 +77,10 @@ def handle (z : St) (args : List String) : Option (St × Proto.Out) :=
   | ["al", id, l] => do logged z (.addLabel (← id.toNat?) (← l.toNat?)) ["al", id, l]
   | ["rl", id, l] => do logged z (.removeLabel (← id.toNat?) (← l.toNat?)) ["rl", id, l]
   | ["rnp", id, k] => do
-    -- `GrafeoDB::remove_node_property`: applied to the store, answers whether something was
-    -- removed; nothing is logged
-    let (g', o) ← DriverLpg.handle { z.g with st := z.db.live } ["rnp", id, k]
+    -- `GrafeoDB::remove_node_property`: answers whether something was removed; logged if so
+    let (st', o) ← logged z (.removeNodeProp (← id.toNat?) (← k.toNat?)) ["rnp", id, k]
     let f := fun (x : String) => if x == "none" then "none" else "removed"
-    let o' : Proto.Out := { model := f o.model, spec := f o.spec, sig := if f o.model == f o.spec then "-" else o.sig }
-    pure ({ z with db := { z.db with live := g'.st }, g := g', sawRnp := z.sawRnp || o.model != "none" }, o')
+    pure (st', { model := f o.model, spec := f o.spec, sig := if f o.model == f o.spec then "-" else o.sig })
   | ["qins", l, k, v] => do
     -- `INSERT (:L {k: v})` through a session query: applied to the store, never logged
     let (g1, o) ← DriverLpg.handle { z.g with st := z.db.live } ["cn", l]
